@@ -220,8 +220,18 @@ func (s *Server) Header() *pdpb.RequestHeader {
 
 // Stop closes the server and removes its data directory.
 func (s *Server) Stop() {
-	s.Svr.Close()
-	s.Cancel()
+	done := make(chan struct{})
+	go func() {
+		s.Svr.Close()
+		s.Cancel()
+		close(done)
+	}()
+	select {
+	case <-done:
+	case <-time.After(15 * time.Second):
+		// pd's shutdown occasionally waits for ever on one of its goroutines; the harness must still exit
+		fmt.Fprintln(os.Stderr, "harness: PD server did not shut down within 15 s; leaving it behind")
+	}
 	if s.dir != "" {
 		os.RemoveAll(s.dir)
 	}
